@@ -324,3 +324,56 @@ theorem tactic5_sound (O : Oracle) (hO : O.Certified) (t : PTerm) (H : TL) (xs :
     exact absurd h (hne r)
 
 end Elim
+
+namespace Elim
+
+theorem transformLoop_nil (tac : Nat → PTerm → TL → List Var → Bool → TacticRes) (ctx : TL) (refine : Bool) (ord : List Nat) :
+    ∀ (todo done : TL), transformLoop tac ctx [] refine ord done todo = .ok (done ++ todo, []) := by
+  intro todo
+  induction todo with
+  | nil => intro done; simp [transformLoop]
+  | cons t rest ih =>
+    intro done
+    have : (Gen.list_intersection t.vars ([] : List Var)).isEmpty = true :=
+      (Gen.list_intersection_isEmpty_iff _ _).mpr (fun x _ hx => by cases hx)
+    simp only [transformLoop, this, Bool.not_true, Bool.false_eq_true, ↓reduceIte]
+    rw [ih]; simp
+
+/-- with nothing to eliminate, relaxation is (two) simplification(s): an equivalence wherever the context holds -/
+theorem elimRelax_nil_equiv (O : Oracle) (hO : O.Certified) (tie : PTerm → Bool) (tac : Nat → PTerm → TL → List Var → Bool → TacticRes)
+    (l ctx : TL) (simp : Bool) (ord : List Nat) (r : TL) (used : List Int)
+    (h : elimRelax O tie tac l ctx [] simp ord = .ok (r, used)) :
+    ∀ v, TL.holds ctx v → (TL.holds r v ↔ TL.holds l v) := by
+  intro v hc
+  unfold elimRelax at h
+  split at h; · cases h
+  rename_i l' hpre
+  have hl' : TL.holds l' v ↔ TL.holds l v := by
+    split at hpre
+    · exact Pacti.C07.simplify_equiv O hO tie l (some ctx) _ hpre v hc
+    · injection hpre with e; subst e; rfl
+  split at h; · cases h
+  rename_i r' used' htr
+  injection h with h; injection h with h1 _; subst h1
+  have hw : TL.withVars r' [] = [] := by
+    apply List.eq_nil_iff_forall_not_mem.mpr
+    intro t ht
+    unfold TL.withVars at ht
+    have := (List.mem_filter.mp ht).2
+    have hemp : (Gen.list_intersection t.vars ([] : List Var)).isEmpty = true :=
+      (Gen.list_intersection_isEmpty_iff _ _).mpr (fun x _ hx => by cases hx)
+    simp [hemp] at this
+  have hd : Gen.list_diff r' (TL.withVars r' []) = r' := by rw [hw]; unfold Gen.list_diff; simp
+  rw [hd, ← hl']
+  unfold transform at htr
+  rw [transformLoop_nil] at htr
+  simp only [List.nil_append] at htr
+  split at htr
+  · split at htr
+    · rename_i r'' hs
+      injection htr with e; injection e with e1 _; subst e1
+      exact Pacti.C07.simplify_equiv O hO tie l' (some ctx) _ hs v hc
+    · cases htr
+  · injection htr with e; injection e with e1 _; subst e1; rfl
+
+end Elim
